@@ -76,10 +76,14 @@ EXTRA = [(sig, fl) for sig in EXTRA_SIGS for fl in ("global", "async")]
 PLAIN = [(pol, fl) for pol in ("fifo", "lru", "lfu", "arc", "random", "tlru") for fl in ("global", "async")]
 
 
+# PLAIN Result functions (C09 under concurrency: no limit / ttl / max_memory / predicates): the first Ok stays stored
+PLAIN_RESULT = [(pol, fl, r) for (pol, fl, r) in (("fifo", "global", 3), ("lru", "async", 3), ("arc", "global", 4), ("lfu", "async", 4))]
+
+
 def gen(seed, n):
     """the first 48 functions are random (seeded); then the 4 fixed ones (plain, F7 witnesses); then the systematic
     block: flavour x policy with limit + invalidate_on, and flavour x policy with max_memory + cache_if"""
-    base_n = n - len(SYSTEMATIC) - len(EXTRA) - len(PLAIN)
+    base_n = n - len(SYSTEMATIC) - len(EXTRA) - len(PLAIN) - len(PLAIN_RESULT)
     fns = gen_random(seed, base_n)
     rng = random.Random(seed * 7 + 3)
     for k, sy in enumerate(SYSTEMATIC):
@@ -104,6 +108,11 @@ def gen(seed, n):
         i = base_n + len(SYSTEMATIC) + len(EXTRA) + k
         fns.append(dict(i=i, real_result=False, is_async=(fl == "async"), policy=pol, limit=None, maxmem=None, ttl=None, fw=None,
                         scope=None, sig=SIGS[1 + k % 2], ret=RETS[k % 3], name=None, tags=([TAGS[0]] if k % 4 == 1 else []), events=[], deps=[],
+                        cache_if=False, inv_on=False, thread_scope=False))
+    for k, (pol, fl, r) in enumerate(PLAIN_RESULT):
+        i = base_n + len(SYSTEMATIC) + len(EXTRA) + len(PLAIN) + k
+        fns.append(dict(i=i, real_result=False, is_async=(fl == "async"), policy=pol, limit=None, maxmem=None, ttl=None, fw=None,
+                        scope=None, sig=SIGS[1 + k % 2], ret=RETS[r], name=None, tags=[], events=[], deps=[],
                         cache_if=False, inv_on=False, thread_scope=False))
     return fns
 
